@@ -17,6 +17,13 @@
 (* the files keep at least their durable prefixes - the model keeps exactly those.              *)
 (* cyclePeriod = 0 means no rotation (keep is then taken as 0).                                  *)
 (*                                                                                             *)
+(* Sessions: when a process has ended - its logger stopped, or it was killed - NewSession starts   *)
+(* a NEW process with the same logger script (fresh Logger / Log objects, store time 0 again).   *)
+(* With `reuse` the logger's directory is the same one: the files are what the earlier process   *)
+(* left on disk, a file that holds anything is appended to without a second header, an empty or   *)
+(* missing main file is a new file and gets the header; rotation goes on over the same copies.    *)
+(* Without `reuse` the new process gets a fresh directory and the old one (`old`) stays as it is. *)
+(*                                                                                             *)
 (* Two points are not fixed by the documentation and are parameters determined by a probe of     *)
 (* the implementation: whether a rotation refused for size is tried again at the next run or     *)
 (* only after another cyclePeriod (RetryRefused), and whether STOP itself rotates (StopCycles:   *)
@@ -26,6 +33,7 @@ EXTENDS LogRules
 CONSTANTS Keeps, Cycles, Sizes, Flushes, Reuses,   \* the rotation configuration is chosen initially from these
           HSize, RSize,     \* bytes of a header / of a record (equal for all logs of a configuration)
           RetryRefused, StopCycles,
+          Sessions,         \* number of processes that run the logger script one after the other (1 or 2)
           Crashes           \* "never" | "any": the process may be killed at any point | "point": it is killed at the
                             \* point chosen initially (a tick, before the environment's first action or right after the logger's turn)
 
@@ -33,6 +41,8 @@ VARIABLES rcfg,             \* [keep, cycle, size, flush, reuse]
           ret, dur,
           cstamp, fstamp,   \* time of the last rotation attempt / flush
           crashed,
+          session,          \* 1 .. Sessions
+          old,              \* files the previous process left in its own directory (no reuse); never touched again
           cp,               \* the chosen crash point [t, ph] (Crashes = "point")
           rotated, refused, flushed,   \* what the last step did (for coverage guards and RotateOnlyAtSize)
           stream,           \* History: stream[l] = all records log l ever wrote, in order
@@ -40,7 +50,7 @@ VARIABLES rcfg,             \* [keep, cycle, size, flush, reuse]
           rotmark,          \* History: rotmark[l] = Len(stream[l]) at the last rotation of l
           dropped           \* History: dropped[l] = number of records of stream[l] rotated out of retention
 
-rotVars == <<rcfg, ret, dur, cstamp, fstamp, crashed, cp, rotated, refused, flushed, stream, fl, rotmark, dropped>>
+rotVars == <<rcfg, ret, dur, cstamp, fstamp, crashed, session, old, cp, rotated, refused, flushed, stream, fl, rotmark, dropped>>
 allVars == <<vars, rotVars>>
 
 NoCP == [t |-> 0 - 1, ph |-> "none"]
@@ -62,6 +72,7 @@ RInit == /\ Init
          /\ ret = [l \in cfg.logs |-> [k \in 1..NFiles |-> <<>>]]
          /\ dur = [l \in cfg.logs |-> [k \in 1..NFiles |-> 0]]
          /\ cstamp = 0 /\ fstamp = 0 /\ crashed = FALSE
+         /\ session = 1 /\ old = [l \in cfg.logs |-> <<>>]
          /\ cp \in (IF Crashes = "point" THEN [t : 0..MaxTime, ph : {"pre", "post"}] ELSE {NoCP})
          /\ rotated = 0 /\ refused = FALSE /\ flushed = FALSE
          /\ stream = [l \in cfg.logs |-> <<>>] /\ fl = [l \in cfg.logs |-> 0] /\ rotmark = [l \in cfg.logs |-> 0] /\ dropped = [l \in cfg.logs |-> 0]
@@ -93,7 +104,7 @@ RSlot ==
     /\ Alive /\ Slot
     /\ IF ~LogRun
          THEN /\ rotated' = 0 /\ refused' = FALSE /\ flushed' = FALSE
-              /\ UNCHANGED <<rcfg, ret, dur, cstamp, fstamp, crashed, cp, stream, fl, rotmark, dropped>>
+              /\ UNCHANGED <<rcfg, ret, dur, cstamp, fstamp, crashed, session, old, cp, stream, fl, rotmark, dropped>>
          ELSE LET flushNow == now - fstamp >= rcfg.flush
                   cycleNow == EffKeep > 0 /\ now - cstamp >= rcfg.cycle
                   stopping == desire = "stop"
@@ -112,10 +123,10 @@ RSlot ==
                                ELSE IF flushNow THEN Len(stream[l]) ELSE fl[l]], fl)
                  /\ rotmark' = H([l \in cfg.logs |-> IF R[l].n > 0 THEN Len(stream[l]) + Len(RecsOf(out'[l])) ELSE rotmark[l]], rotmark)
                  /\ dropped' = H([l \in cfg.logs |-> dropped[l] + R[l].x], dropped)
-                 /\ UNCHANGED <<rcfg, crashed, cp>>
+                 /\ UNCHANGED <<rcfg, crashed, session, old, cp>>
 
 Idle == rotated' = 0 /\ refused' = FALSE /\ flushed' = FALSE
-        /\ UNCHANGED <<rcfg, ret, dur, cstamp, fstamp, crashed, cp, stream, fl, rotmark, dropped>>
+        /\ UNCHANGED <<rcfg, ret, dur, cstamp, fstamp, crashed, session, old, cp, stream, fl, rotmark, dropped>>
 
 \* the record stream of a streak log: some elements are queued before the logger's turn (the placement of writes around
 \* the logger is the subject of LogRules; here the environment only varies how much each run appends)
@@ -126,17 +137,45 @@ RTick == Alive /\ Tick /\ Idle
 \* the process dies: each file keeps (at least) its durable prefix
 Crash == /\ ~crashed /\ (Crashes = "any" \/ AtCP) /\ crashed' = TRUE
          /\ ret' = [l \in cfg.logs |-> [k \in 1..NFiles |-> SubSeq(ret[l][k], 1, dur[l][k])]]
-         /\ UNCHANGED <<vars, rcfg, dur, cstamp, fstamp, cp, rotated, refused, flushed, stream, fl, rotmark, dropped>>
+         /\ UNCHANGED <<vars, rcfg, dur, cstamp, fstamp, session, old, cp, rotated, refused, flushed, stream, fl, rotmark, dropped>>
 
-RNext == RPushS \/ (\E c \in {"stop", "start"} : RBid(c)) \/ RSlot \/ RTick \/ Crash
-RSpec == RInit /\ [][RNext]_allVars
-
-(* ------------------------------ properties ------------------------------ *)
 RECURSIVE Cat(_, _)
 Cat(fs, k) == IF k = 0 THEN <<>> ELSE RecsOf(fs[k]) \o Cat(fs, k - 1)     \* records oldest copy first, main file last
 RetRecs(l) == Cat(ret[l], NFiles)
 DurRecs(l) == Cat([k \in 1..NFiles |-> SubSeq(ret[l][k], 1, dur[l][k])], NFiles)
 IsSuffix(s, t) == Len(s) <= Len(t) /\ s = SubSeq(t, Len(t) - Len(s) + 1, Len(t))
+
+\* a new process runs the same logger script after the previous one ended (logger stopped after having run, or killed)
+Ended == crashed \/ (status = "stopped" /\ desire = "stop" /\ \E l \in cfg.logs : exists[l])
+NewSession ==
+    /\ session < Sessions /\ Ended /\ session' = session + 1
+    /\ crashed' = FALSE /\ cp' = NoCP
+    \* fresh store, shares, Logger and Log objects
+    /\ now' = 0 /\ phase' = "pre" /\ envn' = 0
+    /\ val' = [s \in Shares |-> [f \in FieldsOf(s) |-> 0]] /\ sq' = <<>> /\ dq' = <<>>
+    /\ status' = "stopped" /\ desire' = "start" /\ retime' = 0
+    /\ logged' = [l \in cfg.logs |-> FALSE] /\ dirty' = {} /\ late' = {} /\ urec' = FALSE /\ last' = <<>>
+    /\ out' = NoOut
+    /\ cstamp' = 0 /\ fstamp' = 0 /\ rotated' = 0 /\ refused' = FALSE /\ flushed' = FALSE
+    \* the files
+    /\ IF rcfg.reuse
+         THEN /\ exists' = [l \in cfg.logs |-> ret[l][1] # <<>>]       \* a main file that holds nothing is a new file
+              /\ dur' = [l \in cfg.logs |-> FullDur(ret[l])]             \* what the dead process left is on disk
+              /\ stream' = H([l \in cfg.logs |-> SubSeq(stream[l], 1, dropped[l] + Len(RetRecs(l)))], stream)  \* the rest is lost
+              /\ fl' = H([l \in cfg.logs |-> dropped[l] + Len(RetRecs(l))], fl)
+              /\ UNCHANGED <<ret, old, rotmark, dropped>>
+         ELSE /\ exists' = [l \in cfg.logs |-> FALSE]
+              /\ old' = ret
+              /\ ret' = [l \in cfg.logs |-> [k \in 1..NFiles |-> <<>>]]
+              /\ dur' = [l \in cfg.logs |-> [k \in 1..NFiles |-> 0]]
+              /\ stream' = H([l \in cfg.logs |-> <<>>], stream) /\ fl' = H([l \in cfg.logs |-> 0], fl)
+              /\ rotmark' = H([l \in cfg.logs |-> 0], rotmark) /\ dropped' = H([l \in cfg.logs |-> 0], dropped)
+    /\ UNCHANGED <<cfg, rcfg, pushed, files, hist, pushS, pushD>>
+
+RNext == NewSession \/ RPushS \/ (\E c \in {"stop", "start"} : RBid(c)) \/ RSlot \/ RTick \/ Crash
+RSpec == RInit /\ [][RNext]_allVars
+
+(* ------------------------------ properties ------------------------------ *)
 
 RTypeOK == /\ \A l \in cfg.logs : \A k \in 1..NFiles : dur[l][k] <= Len(ret[l][k])
            /\ \A l \in cfg.logs : \A k \in 2..NFiles : dur[l][k] = Len(ret[l][k])      \* copies are complete on disk
